@@ -1,129 +1,245 @@
-"""C02 - FullscreenWindow: after every render the screen equals the array (DESIGN.md section 3, C02: P1..P11)."""
-import ast
+"""C02 - FullscreenWindow: after every render the screen equals the array (DESIGN.md section 3, C02)."""
+import itertools
 
+from .. import sgr, termmodel
+from ..fold import new_interp
+from ..models import cells, runs_of
+from ..objinterp import Obj
 from ..report import AnalysisError
-from ..srcmodel import unparse
-from . import render
+from ..winmodel import Rig
 
 EXPLANATION = (
-    "Path rules over terminal-effect tokens of FullscreenWindow.render_to_terminal (every write is classified by the "
-    "blessed capability it names: MOVE, TEXT, CLEAR_EOL, CLEAR_BOL ...; an unclassifiable write is a violation of the "
-    "whitelist).  P1 every drawn row is move(row,0), text, then clear_eol exactly when len(line) < width (pending-wrap "
-    "column); P2 every pass through the row loop - drawn or skipped - records current[row] = line; P3 a row is skipped "
-    "only under equality with the cached content of the same row; P4/P5 rows below the array are blanked (move, clear_eol, "
-    "clear_bol, recorded as None) unless a non-empty cache has no entry for them; P7 the cache is dropped when height OR "
-    "width differs from the last render's and each dimension is recorded under its own name (argument -> parameter -> "
-    "stored attribute dataflow); P8 the per-call record starts empty and becomes the cache after the loops, unconditionally, "
-    "and nobody else writes the cache; P9 the last cursor movement is move(*cursor_pos); P10 writes are bounded by the "
-    "terminal size: at most `height` rows are iterated and the text written is cut to `width` (never scrolls, shows the "
-    "top-left part); P11 the comparison used by P3 is FmtStr.__eq__, which must compare terminal strings, plain str "
-    "included (C19's rule H1, re-run here on its value pool)."
+    "FullscreenWindow (its own __init__, __enter__, render_to_terminal, on_terminal_size_change, write ... and everything "
+    "they call in formatstring / formatstringarray) is abstractly interpreted with blessed.Terminal replaced by a stub "
+    "whose capabilities are xterm control strings; every string the window writes is fed to an independent reference "
+    "model of the terminal (sa/termmodel.py: cursor addressing with clamping, deferred autowrap at the last column, line "
+    "feed scrolling, erase with the current background, SGR through the ECMA-48 machine, alternate screen).  For a "
+    "catalogue of terminal sizes, arrays (FSArray, lists of FmtStr, lists of str; heights 0 .. beyond the screen, row "
+    "lengths 0 .. beyond the width, full-width rows, rows that differ only in formatting, formatted blanks) and histories "
+    "(for every ordered pair of arrays A, B: A, A again, B, A; with and without a resize to a different size - height "
+    "only, width only, both - that leaves junk in every cell and the cursor elsewhere; hide_cursor on and off) the model "
+    "screen after each render is compared cell by cell (character and formatting) with the array's top-left part, every "
+    "other cell blank and unformatted, the cursor at cursor_pos, and no line scrolled.  P11: the row cache relies on "
+    "FmtStr.__eq__ comparing what would be displayed (C19's rule re-run here); the cache-coherence rules of C13 are "
+    "re-run on the window classes."
 )
-NOT_DECIDED = ("what the terminal does with the tokens (blessed capability strings and terminal semantics are external); "
-               "multi-column characters; exceptions raised in the middle of a render.")
+NOT_DECIDED = ("histories longer than three renders and terminals larger than the catalogue's (bounded claim: the code's only "
+               "cross-render state is the row cache and the two remembered dimensions, which pairs of renders exhaust for the "
+               "catalogue's arrays); multi-column characters; what a real terminal does with the control strings (the reference "
+               "model is an assumption); exceptions raised in the middle of a render.")
+
+JUNK = ("#", (35, 44, frozenset({1})))
+
+
+def expected_cells(row):
+    """[(char, SGR state)] a row value (FmtStr model object or str) shows."""
+    if isinstance(row, str):
+        return [(ch, sgr.DEFAULT) for ch in row]
+    out = []
+    for ch, eff in cells(runs_of(row)):
+        d = dict(eff)
+        styles = {k: v for k, v in d.items() if k not in ("fg", "bg")}
+        out.append((ch, sgr.expected_state(d.get("fg"), d.get("bg"), styles)))
+    return out
+
+
+def rows_of(array):
+    if isinstance(array, Obj) and array.cls == "FSArray":
+        return list(array.fields["rows"])
+    return list(array)
+
+
+def expected_screen(array, h, w):
+    rows = rows_of(array)
+    out = []
+    for r in range(h):
+        line = expected_cells(rows[r])[:w] if r < len(rows) else []
+        out.append(line + [termmodel.BLANK] * (w - len(line)))
+    return out
+
+
+def show(grid):
+    return ["".join(ch for ch, _ in row) + ("" if all(st == sgr.DEFAULT for _, st in row) else
+                                            " /" + "".join("." if st == sgr.DEFAULT else "^" for _, st in row)) for row in grid]
+
+
+class Pool:
+    def __init__(self, it):
+        self.it = it
+
+    def fs(self, s, *args, **kw):
+        r = self.it.call1("formatstring", "fmtstr", s, *args, **kw)
+        if r[0] != "ok":
+            raise AnalysisError("fmtstr(%r, %r, %r) not evaluable: %s" % (s, args, kw, r))
+        return r[1]
+
+    def cat(self, a, b):
+        r = self.it.callm(a, "__add__", b)
+        if r[0] != "ok":
+            raise AnalysisError("FmtStr + FmtStr not evaluable: %s" % (r,))
+        return r[1]
+
+    def arrays(self, h, w, tier):
+        fs, cat = self.fs, self.cat
+        out = [
+            ("[]", lambda: []),
+            ("['ab']", lambda: [fs("ab"[:w])]),
+            ("[red 'ab']", lambda: [fs("ab"[:w], "red")]),
+            ("%d full-width rows" % h, lambda: [fs(("x" * w)) for _ in range(h)]),
+            ("%d full-width rows, bold on blue" % h, lambda: [fs(("x" * w), "bold", bg="blue") for _ in range(h)]),
+            ("%d rows of %d columns (beyond the screen both ways)" % (h + 2, w + 2),
+             lambda: [fs("abcdefghij"[i:i + w + 2] if i % 2 else "ABCDEFGHIJ"[i:i + w + 2]) for i in range(h + 2)]),
+            ("['', 'a'] + blanks on green", lambda: [fs(""), cat(fs("a"), fs(" " * (w - 1), bg="green")) if w > 1 else fs("a")]),
+            ("str rows ['ab', 'c']", lambda: ["ab"[:w], "c"]),
+            ("fsarray(['a', '', 'abc'])", lambda: self.fsarray(["a", "", "abc"[:w]], w)),
+            ("two-run rows wider than the screen", lambda: [cat(fs("ab", "red"), fs("cdefgh"[:w], "underline")) for _ in range(max(1, h - 1))]),
+        ]
+        if tier == "thorough":
+            out += [
+                ("%d rows 'a'" % (h + 1), lambda: [fs("a") for _ in range(h + 1)]),
+                ("[red 'ab', 'ab']", lambda: [fs("ab"[:w], "red"), fs("ab"[:w])]),
+                ("['ab', red 'ab']", lambda: [fs("ab"[:w]), fs("ab"[:w], "red")]),
+                ("h-1 full-width rows", lambda: [fs("y" * w) for _ in range(h - 1)]),
+            ]
+        return out
+
+    def fsarray(self, strings, w):
+        r = self.it.call1("formatstringarray", "fsarray", list(strings), w)
+        if r[0] != "ok":
+            raise AnalysisError("fsarray(%r) not evaluable: %s" % (strings, r))
+        return r[1]
+
+
+def _cursor(i, h, w):
+    return [(0, 0), (h - 1, w - 1), (h // 2, w // 2), (0, w - 1)][i % 4]
+
+
+def run_history(src_it, h, w, steps, hide_cursor):
+    """steps: list of ('render', name, thunk, cursor) | ('resize', h2, w2).  Returns None or (rule, history, detail)."""
+    it = src_it
+    rig = Rig(it, "FullscreenWindow", h, w, init_kwargs={"hide_cursor": hide_cursor})
+    scr = rig.screen
+    r = rig.call("__enter__")
+    if r[0] != "ok":
+        return ("F0-enter", "FullscreenWindow.__enter__()", "raised %s" % (r[1],))
+    trail = ["%dx%d terminal%s" % (scr.height, scr.width, "" if hide_cursor else ", hide_cursor=False")]
+    for st in steps:
+        if st[0] == "resize":
+            scr.resize(st[1], st[2])
+            scr.rows = [[JUNK] * scr.width for _ in range(scr.height)]
+            scr.r, scr.c = scr.height - 1, 0
+            trail.append("resize to %dx%d leaving junk" % (st[1], st[2]))
+            continue
+        _, name, thunk, cur = st
+        array = thunk()
+        cur = (min(cur[0], scr.height - 1), min(cur[1], scr.width - 1))
+        scr.mark()
+        r = rig.call("render_to_terminal", array, cur)
+        trail.append("render %s cursor_pos=%s" % (name, cur))
+        hist = "; ".join(trail)
+        if r[0] != "ok":
+            return ("F1-screen-equals-array", hist, "the render raised %s" % (r[1],))
+        want = expected_screen(array, scr.height, scr.width)
+        if scr.scrolls:
+            return ("F3-never-scrolls", hist, "the screen scrolled %d line(s); it shows %s" % (scr.scrolls, show(scr.rows)))
+        if scr.rows != want:
+            return ("F1-screen-equals-array", hist, "the screen shows %s, the array's visible part is %s ('^' marks formatted cells)"
+                    % (show(scr.rows), show(want)))
+        if (scr.r, scr.c) != cur or scr.pending:
+            return ("F2-cursor-at-cursor-pos", hist, "the cursor is at %s%s" % ((scr.r, scr.c), " with a deferred wrap pending" if scr.pending else ""))
+        if scr.alt is None:
+            return ("F4-stays-on-the-alternate-screen", hist, "the window left the alternate screen")
+    r = rig.call("__exit__", None, None, None)
+    if r[0] != "ok":
+        return ("F5-exit-restores-the-screen", "; ".join(trail) + "; __exit__", "raised %s" % (r[1],))
+    if scr.alt is not None or not scr.visible:
+        return ("F5-exit-restores-the-screen", "; ".join(trail) + "; __exit__",
+                "after leaving the context the terminal is %s" % ("still on the alternate screen" if scr.alt is not None else "left with a hidden cursor"))
+    return None
+
+
+GROUPS = {
+    "F0-enter": "entering the context",
+    "F1-screen-equals-array": "screen after each render of the history catalogue",
+    "F2-cursor-at-cursor-pos": "cursor after each render of the history catalogue",
+    "F3-never-scrolls": "lines scrolled by each render of the history catalogue",
+    "F4-stays-on-the-alternate-screen": "screen buffer in use during the history catalogue",
+    "F5-exit-restores-the-screen": "terminal state after leaving the context",
+}
+
+
+def rule_semantic(src, rep, counts):
+    from ..par import pmap
+    it = new_interp(src)
+    pool = Pool(it)
+    f = src.func("window", "FullscreenWindow.render_to_terminal")
+    sizes = [(3, 4), (2, 2), (1, 3)] if rep.tier == "quick" else [(3, 4), (2, 2), (1, 3), (4, 6), (1, 1), (3, 1)]
+    jobs = []
+    for (h, w) in sizes:
+        arrs = pool.arrays(h, w, rep.tier)
+        others = [(h + 1, w), (h, w + 2), (max(1, h - 1), max(1, w - 1))] + ([(w, h)] if h != w else [])
+        others = [o for o in others if o != (h, w)]     # a resize is to a size different from the one last rendered at
+        for (i, a), (j, b) in itertools.product(enumerate(arrs), repeat=2):
+            for k, rs in enumerate([None] + others):
+                if rs is not None and rep.tier == "quick" and (i + j + k) % 3:
+                    continue
+                hide = (i + j + k) % 2 == 0 if rep.tier == "quick" else None
+                for hc in ([hide] if hide is not None else [True, False]):
+                    jobs.append((h, w, i, j, rs, hc))
+
+    def one(job):
+        h, w, i, j, rs, hc = job
+        arrs = pool.arrays(h, w, rep.tier)
+        steps = [("render", arrs[i][0], arrs[i][1], _cursor(i, h, w))]
+        if rs is not None:
+            steps.append(("resize", rs[0], rs[1]))
+            arrs2 = pool.arrays(rs[0], rs[1], rep.tier)
+            steps.append(("render", arrs2[i][0], arrs2[i][1], _cursor(i + 1, rs[0], rs[1])))
+            steps.append(("render", arrs2[j][0], arrs2[j][1], _cursor(j + 2, rs[0], rs[1])))
+            steps.append(("render", arrs2[i][0], arrs2[i][1], _cursor(i + 3, rs[0], rs[1])))
+        else:
+            steps.append(("render", arrs[i][0], arrs[i][1], _cursor(i + 1, h, w)))
+            steps.append(("render", arrs[j][0], arrs[j][1], _cursor(j + 2, h, w)))
+            steps.append(("render", arrs[i][0], arrs[i][1], _cursor(i + 3, h, w)))
+        try:
+            return run_history(it, h, w, steps, hc)
+        except AnalysisError as e:
+            return ("error", str(e), "")
+    results = pmap(one, jobs, min_chunk=8)
+    bad = {}
+    n = 0
+    for job, res in zip(jobs, results):
+        n += 1
+        rep.case(True, {"terminal": job[:2], "arrays": job[2:4], "resize_to": job[4], "hide_cursor": job[5]} if n % 397 == 1 else None)
+        if res is None:
+            continue
+        if res[0] == "error":
+            raise AnalysisError(res[1])
+        bad.setdefault(res[0], []).append(res[1:])
+    for rule, group in GROUPS.items():
+        items = bad.get(rule, [])
+        if items:
+            items.sort(key=lambda x: len(x[0]))
+            hist, why = items[0]
+            rep.ob(rule, f.where(), f.scope, group, False, "%s: %s (%d of %d histories fail this rule)" % (hist, why, len(items), n),
+                   witness={"history": hist, "failing_histories": len(items)})
+        else:
+            rep.ob(rule, f.where(), f.scope, group, True)
+    counts["histories"] = n
 
 
 def check(src, rep):
     rep.explanation = EXPLANATION
     rep.not_decided = NOT_DECIDED
-    rep.assumptions = ["blessed capabilities do what their names say; xterm pending-wrap semantics at the last column",
-                       "the for_stdout transform is str()"]
-    rep.trusted_base = ["CPython ast", "sa/cfg.py (path enumeration, feasibility)", "sa/rules/render.py"]
+    rep.assumptions = ["the reference terminal model (sa/termmodel.py) describes the terminal: xterm control functions, deferred wrap at the last column",
+                       "blessed returns the xterm capability strings for the capabilities the window names"]
+    rep.trusted_base = ["CPython ast", "sa/consteval.py", "sa/absint.py", "sa/objinterp.py", "sa/termmodel.py", "sa/winmodel.py", "sa/sgr.py"]
     counts = {}
-    rep.guard(rule_render, src, rep, counts)
+    rep.guard(rule_semantic, src, rep, counts)
     rep.guard(rule_eq, src, rep, counts)
+    rep.guard(rule_cache, src, rep, counts)
     rep.extracted["counts"] = counts
-    rep.floor("row loops", counts.get("loops", 0), 2)
-    rep.floor("loop-body paths", counts.get("paths", 0), 4)
-
-
-def rule_render(src, rep, counts):
-    f = src.func("window", "FullscreenWindow.render_to_terminal")
-    h, w = render.size_locals(f)
-    tf = render.text_funcs(src, f)
-    # the stdout transform is str()
-    x = src.func("window", "BaseWindow.fmtstr_to_stdout_xform")
-    inner = [g for (m, qn), g in src.funcs.items() if m == "window" and g.outer is x]
-    ok = len(inner) == 1 and len([n for n in inner[0].own_nodes() if isinstance(n, ast.Return)]) == 1 and \
-        unparse([n for n in inner[0].own_nodes() if isinstance(n, ast.Return)][0].value) == "str(%s)" % inner[0].params()[0]
-    rep.ob("P1-text-is-terminal-string", x.where(), x.scope, "for_stdout(s) = str(s)", ok,
-           "what is written for a row must be its terminal string str(row)")
-    loops = [n for n in f.node.body if isinstance(n, ast.For)]
-    if len(loops) != 2:
-        raise AnalysisError("FullscreenWindow.render_to_terminal: expected two top-level row loops, found %d" % len(loops))
-    content, blank = loops
-    counts["loops"] = len(loops)
-    # current dict
-    recs = [n for n in ast.walk(content) if isinstance(n, ast.Assign) and isinstance(n.targets[0], ast.Subscript)]
-    if not recs:
-        raise AnalysisError("content loop records nothing")
-    current = unparse(recs[0].targets[0].value)
-    # loop headers
-    it = content.iter
-    tgt = content.target
-    if not (isinstance(tgt, ast.Tuple) and len(tgt.elts) == 2 and isinstance(it, ast.Call) and unparse(it.func) == "enumerate"
-            and len(it.args) == 1):
-        raise AnalysisError("content loop is not `for row, line in enumerate(<array>)`: %s" % unparse(it))
-    rowvar, linevar = unparse(tgt.elts[0]), unparse(tgt.elts[1])
-    arr = f.params()[1]
-    src_txt = unparse(it.args[0])
-    rows_bounded = src_txt in ("%s[:%s]" % (arr, h), "%s[0:%s]" % (arr, h))
-    # alternative idiom: `if row >= height: break` as first statement
-    first = content.body[0] if content.body else None
-    if isinstance(first, ast.If) and unparse(first.test) in ("%s >= %s" % (rowvar, h), "%s <= %s" % (h, rowvar)) and \
-            any(isinstance(s, ast.Break) for s in first.body) and src_txt == arr:
-        rows_bounded = True
-    rep.ob("P10-rows-bounded-by-height", f.where(content), f.scope, "for %s in %s" % (unparse(tgt), unparse(it)),
-           rows_bounded and src_txt.startswith(arr),
-           "the content loop writes every row of the array; rows beyond the terminal height are addressed past the last line "
-           "(the terminal clamps them onto the bottom row, which then shows the wrong row) - only the first `%s` rows fit" % h,
-           witness={"history": "render an array with height+2 rows on a height-row terminal: the bottom screen row shows array row height+1"})
-    nd, ns = render.check_content_loop(rep, f, content, rowvar, linevar, w, current, tf, "", bounded_text=None)
-    # P10 width: the TEXT argument is cut to the width
-    texts = []
-    for n in ast.walk(content):
-        if isinstance(n, ast.Expr):
-            t = render.token_of(n, tf)
-            if t and t[0] == "TEXT":
-                texts.append((n, t[1]))
-    for n, a in texts:
-        ok = unparse(a) in ("%s[:%s]" % (linevar, w), "%s[0:%s]" % (linevar, w))
-        rep.ob("P10-text-bounded-by-width", f.where(n), f.scope, unparse(n), ok,
-               "a row longer than the terminal width is written whole: it wraps onto the next screen row (and on the last row "
-               "scrolls the screen); only the first `%s` cells fit" % w,
-               witness={"history": "render a row of width+2 characters on the last screen row: the screen scrolls"})
-    # blank loop
-    bi = blank.iter
-    ok = isinstance(bi, ast.Call) and unparse(bi.func) == "range" and len(bi.args) == 2 and unparse(bi.args[0]) == "len(%s)" % arr and \
-        unparse(bi.args[1]) == h and isinstance(blank.target, ast.Name)
-    rep.ob("P4-blank-range", f.where(blank), f.scope, "for %s in %s" % (unparse(blank.target), unparse(bi)), ok,
-           "the rows to blank are exactly range(len(array), height)")
-    render.check_blank_loop(rep, f, blank, unparse(blank.target), current, tf, "")
-    from ..cfg import enumerate_paths
-    counts["paths"] = len(enumerate_paths(content.body)) + len(enumerate_paths(blank.body))
-    render.check_invalidation(src, rep, f, h, w, content, "")
-    render.check_commit(src, rep, f, current, loops, "")
-    counts["cache_writers"] = render.who_writes_cache(src, rep, "")
-    # P9: last cursor-moving token at top level is move(*cursor_pos)
-    toks = []
-    for st in f.node.body:
-        t = render.token_of(st, tf)
-        if t is not None:
-            toks.append((st, t))
-    moves = [(st, t) for st, t in toks if t[0] in ("MOVE", "MOVE_X", "MOVE_DOWN", "MOVE_UP", "HOME", "TEXT", "CLEAR_EOL", "CLEAR_BOL",
-                                                    "CLEAR_EOS", "CLEAR_ALL", "OTHER", "SCROLL")]
-    cp = f.params()[2]
-    ok = bool(moves) and moves[-1][1] == ("MOVE", "*" + cp) and moves[-1][0].lineno > blank.lineno
-    rep.ob("P9-cursor-placed-last", f.where(moves[-1][0]) if moves else f.where(), f.scope,
-           render._show([t for _, t in moves[-2:]]), ok,
-           "after all rows are written the cursor must be moved to cursor_pos and nothing may move it afterwards")
-    for st, t in toks:
-        if t[0] == "OTHER":
-            rep.ob("P0-known-terminal-effects-only", f.where(st), f.scope, unparse(st), False,
-                   "a write whose effect on the screen is not one of the modelled capabilities")
-    for n in f.own_nodes():
-        if isinstance(n, ast.Expr) and render.token_of(n, tf) == ("SCROLL",):
-            rep.ob("P10-never-scrolls", f.where(n), f.scope, unparse(n), False, "FullscreenWindow must never scroll the screen")
+    rep.floor("render histories", counts.get("histories", 0), 100)
 
 
 def rule_eq(src, rep, counts):
@@ -140,3 +256,20 @@ def rule_eq(src, rep, counts):
             rep.obligations.append(o)
     rep.model_cases += tmp.model_cases
     rep.model_nontrivial += tmp.model_nontrivial
+
+
+def rule_cache(src, rep, counts):
+    """The cached rows must not go stale: C13's cache-coherence rules, re-run (a stale cached string makes the row comparison lie)."""
+    from . import c13
+    from ..report import Report
+    tmp = Report("C02", rep.tier, rep.repo)
+    c13.run_rules(src, tmp)
+    k = 0
+    for o in tmp.obligations:
+        if o.rule.startswith(("I1", "I2", "I3", "I7")):
+            o.rule = "P12-" + o.rule
+            rep.obligations.append(o)
+            k += 1
+    if tmp.errors:
+        raise AnalysisError("cache-coherence rules: %s" % tmp.errors[0])
+    counts["cache_obligations"] = k
